@@ -29,7 +29,7 @@ class Replicas(Family):
         n = 24 if tier == "quick" else 500
         env = dict(os.environ, TMPDIR=ctx.dir)
         traces = []
-        for i, (mode, cnt) in enumerate((("", n), ("group", n), ("timed", n // 2), ("xhub", n // 2), ("rules", n // 2))):
+        for i, (mode, cnt) in enumerate((("", n), ("group", n), ("timed", n // 2), ("xhub", n // 2), ("rules", n // 2), ("roles", n // 3), ("lifecycle", n // 3))):
             od = os.path.join(ctx.dir, "t-%d" % i)
             args = ["-n", str(cnt), "-seed", str(ctx.seed * 13 + i), "-replicas", "3"] + (["-mode", mode] if mode else [])
             run_adapter_resilient(ctx.bin, args, od, env, "interadp")
